@@ -265,6 +265,9 @@ func TestC09Burst(t *testing.T) {
 			defer func() { <-sem }()
 			r := newRand(int64(900 + i))
 			k := 2 + r.Intn(4)
+			if thorough() && i%3 == 0 {
+				k = 8 + r.Intn(6)
+			}
 			pool := k + r.Intn(3)
 			if i%5 == 4 {
 				pool = k - 1 // more clients than addresses: exactly pool OFFERs
